@@ -11,3 +11,40 @@ package pclog
 //@   ensures length: len(result) == c
 //@   ensures window: forall i int :: 0 <= i && i < c ==> result[i] == old(b.buffer[L - o + i])
 //@   assigns nothing
+
+// C18: the in-memory log is the most recent suffix of everything written, at least `size` lines once
+// that many were written and never more than size+slack.
+//@ define bufWF(b *ProcessLogBuffer) bool = b.size >= 0 && len(b.buffer) <= b.size + 100 && b.observers != nil
+
+//@ func NewLogBuffer
+//@   requires size >= 0
+//@   ensures result != nil && fresh(result) && bufWF(result) && len(result.buffer) == 0 && result.size == size
+//@   assigns nothing
+
+//@ func (b *ProcessLogBuffer) Write
+//@   requires !held(b.mx) && bufWF(b)
+//@   let n0 = len(b.buffer)
+//@   ensures wf: bufWF(b)
+//@   ensures length: len(b.buffer) == n0 + 1 || (n0 + 1 > b.size + 100 && len(b.buffer) == n0 + 1 - 100)
+//@   ensures atleast: len(b.buffer) >= ite(n0 + 1 < b.size, n0 + 1, b.size)
+//@   ensures last: b.buffer[len(b.buffer) - 1] == message
+//@   ensures order: forall i int :: 0 <= i && n0 + 1 - len(b.buffer) <= i && i < n0 ==> b.buffer[i - (n0 + 1 - len(b.buffer))] == old(b.buffer[i])
+//@   ensures fanout: forall k string :: k in b.observers ==> observed(b.observers[k], message) >= old(observed(b.observers[k], message)) + 1
+//@   ensures atomic: acquires(b.mx) == old(acquires(b.mx)) + 1
+//@   ensures unlocked: !held(b.mx)
+//@   assigns b.buffer, elems(b.buffer), observed[*]
+//@   loop 1 invariant held(b.mx)
+//@   loop 1 invariant forall k string :: seen(k) ==> observed(b.observers[k], message) >= old(observed(b.observers[k], message)) + 1
+//@   loop 1 invariant forall o LogObserver :: observed(o, message) >= old(observed(o, message))
+
+//@ func (b *ProcessLogBuffer) GetLogsAndSubscribe
+//@   requires !held(b.mx) && bufWF(b)
+//@   ensures registered: obsId(observer) in b.observers && b.observers[obsId(observer)] == observer
+//@   ensures atomic: acquires(b.mx) == old(acquires(b.mx)) + 1
+//@   ensures tail: len(linesSet(observer)) == ite(obsTail(observer) < 0, 0, ite(obsTail(observer) > len(b.buffer), len(b.buffer), obsTail(observer)))
+//@   ensures unlocked: !held(b.mx)
+//@   assigns linesSet(observer), entries(b.observers)
+
+//@ func (b *ProcessLogBuffer) GetLogLength
+//@   ensures result == len(b.buffer)
+//@   assigns nothing
